@@ -444,7 +444,7 @@ pub fn cse_classify_by_conditions(
         .collect()
 }
 
-fn detect_common_cse_root(instances: &[CSEInstance]) -> Vec<BodyformPathArc> {
+fn detect_common_cse_root(body: &BodyForm, instances: &[CSEInstance]) -> Vec<BodyformPathArc> {
     // No instances, we can choose the root.
     let min_size = if let Some(m) = instances.iter().map(|i| i.path.len()).min() {
         m
@@ -470,6 +470,14 @@ fn detect_common_cse_root(instances: &[CSEInstance]) -> Vec<BodyformPathArc> {
         if f == &BodyformPathArc::BodyOf {
             return target_path.iter().take(idx + 1).cloned().collect();
         }
+    }
+
+    // The instances part ways inside an assign form: its own bindings may be
+    // used by them, so the new binding belongs to that form.
+    if let Some(BodyForm::Let(LetFormKind::Assign, _)) =
+        retrieve_bodyform(&target_path, body, &|b: &BodyForm| b.clone())
+    {
+        return target_path;
     }
 
     // No internal root if there was no let traversal.
@@ -720,7 +728,7 @@ pub fn cse_optimize_bodyform(
 
             // Detect the root of the CSE as the innermost expression that covers
             // all uses.
-            let replace_path = detect_common_cse_root(&d.instances);
+            let replace_path = detect_common_cse_root(&function_body, &d.instances);
 
             // Route the captured repeated subexpression into intervening lambdas.
             // This means that the lambdas will gain a capture on the left side of
